@@ -804,10 +804,9 @@ def lookalike_case(ctx: Ctx, cls: str, kw, kw2, flavour: str, rng, origin: str, 
                 after = table_shape(obj.transitions)
                 added = {q: sorted(set(v or []) - set(shape_before.get(q) or [])) for q, v in after.items()
                          if q not in shape_before or set(v or []) - set(shape_before.get(q) or [])} if who == "operand" else "?"
-                # open finding KEY_ASNTM_EAFP: the one EAFP subscript of the unchanged tree (mntm.py
-                # read_input_as_ntm: `try: self.transitions[state][heads] except KeyError`)
-                key = (KEY_ASNTM_EAFP if cls == "MNTM" and name == "MNTM.read_input_as_ntm"
-                       and flavour in ("defaultdict", "defaultdict-outer", "missing-inserts") else None)
+                # (F36, repaired by /repo 5078540: read_input_as_ntm used to subscript the table inside
+                # try/except KeyError, which inserted into defaultdict tables — a plain violation again)
+                key = None
                 ctx.prop_fail(f"{name} ({out}) changed the definition of its {who} (allow_mutable_automata=True, "
                               f"{cls} definition handed over as {flavour}): "
                               + (f"rows / entries added: {added!r:.200}" if added and added != "?" else
@@ -1023,10 +1022,6 @@ def history(ctx: Ctx, rng, mutable: bool, steps: int, classes: List[str], origin
     for step in range(steps):
         m = rng.choice(pool)
         ops1 = M.unary_ops(m.cls) + roundtrip_ops(m.cls)
-        if m.cls == "MNTM" and getattr(m, "inserting", False):
-            # open finding KEY_ASNTM_EAFP (reported by lookalike_family under its key on every run): not repeated
-            # here, where the containers are shared with copies and the write could not be attributed
-            ops1 = [o for o in ops1 if o[0] != "MNTM.read_input_as_ntm"]
         ops2 = M.binary_ops(m.cls)
         a = M.arg_pack(rng, m.obj.input_symbols)
         if ops2 and rng.random() < 0.4:
